@@ -40,7 +40,7 @@ MANIFEST = {
 }
 
 WRITERS = ["SRTWriter", "WebVTTWriter", "MicroDVDWriter", "DFXPWriter", "SinglePositioningDFXPWriter", "LegacyDFXPWriter", "SAMIWriter", "SCCWriter"]
-SETS = ["plain", "spans", "unbalanced", "px-novideo", "two-langs", "empty", "scc", "styled", "unbalanced-two", "unsorted", "spans-redefined"]
+SETS = ["plain", "spans", "unbalanced", "px-novideo", "two-langs", "empty", "scc", "styled", "unbalanced-two", "unsorted", "spans-redefined", "two-layouts"]
 SEEDS = {"quick": ["0", "5"], "thorough": ["0", "1", "2", "3", "5", "8", "13", "21"]}
 VERIF = os.path.dirname(os.path.dirname(os.path.dirname(os.path.abspath(__file__))))
 
@@ -51,9 +51,9 @@ def bounds(tier):
 
 def opts_for(w):
     if w == "WebVTTWriter":
-        return [{}, {"lang": "last"}, {"init": {"relativize": False}}]
+        return [{}, {"lang": "last"}, {"init": {"relativize": False}}, {"init": {"video_width": 640, "video_height": 360}}, {"init": {"video_width": 1280, "video_height": 720, "fit_to_screen": False}}]
     if w in ("DFXPWriter", "SinglePositioningDFXPWriter"):
-        return [{}, {"force": "last"}, {"init": {"fit_to_screen": False}}]
+        return [{}, {"force": "last"}, {"init": {"fit_to_screen": False}}, {"init": {"video_width": 640, "video_height": 360}}]
     if w == "LegacyDFXPWriter":
         return [{}, {"force": "last"}]
     if w == "SAMIWriter":
@@ -90,6 +90,12 @@ def make_set(name):
     if name == "px-novideo":
         L = Layout(origin=Point(Size(20, UnitEnum.PIXEL), Size(30, UnitEnum.PIXEL)))
         return CaptionSet({"en-US": CaptionList([cap(0, [T("first")]), cap(1, [T("positioned in px")], layout_info=L)])})
+    if name == "two-layouts":
+        # one caption introduces two layouts at once (region numbering), one of them needs fitting
+        la = Layout(origin=Point(Size(10, P), Size(10, P)))
+        lb = Layout(origin=Point(Size(20, P), Size(70, P)), alignment=Alignment(HorizontalAlignmentEnum.RIGHT, VerticalAlignmentEnum.TOP))
+        lc = Layout(alignment=Alignment(HorizontalAlignmentEnum.CENTER, VerticalAlignmentEnum.CENTER))
+        return CaptionSet({"en-US": CaptionList([cap(0, [T("a", layout_info=la), B(layout_info=la), T("b", layout_info=lb), B(layout_info=lb), T("c", layout_info=lc)]), cap(1, [T("d", layout_info=lb)])])})
     if name == "two-langs":
         return CaptionSet({"en-US": CaptionList([cap(0, [T("one")]), cap(2, [T("two")])]), "fr-FR": CaptionList([cap(1, [T("un")]), cap(2, [T("deux")])])})
     if name == "empty":
@@ -250,7 +256,7 @@ def explore_writer(acc, wname, depth, states_out):
                         # cache would do the same); probe every write of the menu with FRESH writer objects in this
                         # process and compare with the pristine outputs
                         changed_keys = canon.diff_state(g0, g1)
-                        hit = probe_after_pollution(acc, wname, init, h2, my_ops, changed_keys)
+                        hit = probe_after_pollution(acc, wname, init, h2, ops, changed_keys)
                         acc.count("histories_that_changed_global_state" + ("" if hit else "_but_no_output"))
                         bad = True
                         restore_globals()
